@@ -56,6 +56,7 @@ type Trace struct {
 	T      int    `json:"t"`
 	MaxR   int    `json:"maxr"`
 	AT     int    `json:"at"`
+	Slow   bool   `json:"slow"`   // real time came too close to a near context deadline: not judged
 	Queued int    `json:"queued"` // ms the request waited behind NSTART before its first transmission
 	Ev     []Ev   `json:"ev"`
 	Copies []Copy `json:"copies"`
@@ -95,7 +96,18 @@ func runOne(st Stim) Trace {
 			tr.Others++
 		}
 	}
+	// "deadline": the caller's context carries a deadline, t seconds from now (virtual ticks are seconds too)
+	dlSec := 0
+	for _, a := range st.Steps {
+		if a.A == "deadline" {
+			dlSec = a.T
+		}
+	}
+	began := time.Now()
 	ctx, cancel := context.WithCancel(context.Background())
+	if dlSec > 0 {
+		ctx, cancel = context.WithDeadline(context.Background(), began.Add(time.Duration(dlSec)*time.Second))
+	}
 	defer cancel()
 	type result struct {
 		ok   bool
@@ -108,6 +120,9 @@ func runOne(st Stim) Trace {
 	queueMs := 0
 	if len(steps) > 0 && steps[0].A == "queue" {
 		queueMs = steps[0].T
+		steps = steps[1:]
+	}
+	if len(steps) > 0 && steps[0].A == "deadline" {
 		steps = steps[1:]
 	}
 	var occDone chan struct{}
@@ -231,6 +246,8 @@ func runOne(st Stim) Trace {
 	mu.Unlock()
 	u.CC.CheckExpirations(base.Add(1000 * time.Second))
 	tr.Final = snap(Act{"end", 0})
+	// a run that took a sizeable part of a real-time deadline says nothing about the virtual schedule
+	tr.Slow = dlSec > 0 && dlSec < 100 && time.Since(began) > time.Duration(dlSec)*time.Second/3
 	tr.Errs = u.Errs.Len()
 	return tr
 }
